@@ -37,6 +37,7 @@ type hoDriver struct {
 
 	lastBlock bool // the history's final block (determinism mode: the whole validator set may leave in it)
 	left      int  // blocks left after this one
+	forceMut  string // the next mutated proposal is of this kind (consumed)
 }
 
 func (d *hoDriver) emit(ev string, f Ev) {
@@ -226,6 +227,29 @@ func execDigest(res *abci.ResponseFinalizeBlock, engine []sim.EngineCall, c *sim
 	return hex.EncodeToString(h.Sum(nil)[:10])
 }
 
+// execDigestSet is execDigest with the engine calls taken as a SET and without newPayload requests for the proposal's own
+// payload (hash `own`): on a replica that has just refused the proposal in ProcessProposal the engine may still log that call's
+// newPayload request (the client gave up, the server had not answered yet) at any later moment. Whether the head moved to the
+// proposal's payload stays visible in the forkchoiceUpdated call.
+func execDigestSet(res *abci.ResponseFinalizeBlock, engine []sim.EngineCall, c *sim.Chain, own string) string {
+	seen := map[string]bool{}
+	var uniq []sim.EngineCall
+	for _, e := range engine {
+		if e.Method == "newPayload" && e.Hash == own {
+			continue
+		}
+		k := fmt.Sprintf("%s/%s/%s/%s/%s", e.Method, e.Head, e.Safe, e.Fin, e.Hash)
+		if !seen[k] {
+			seen[k] = true
+			uniq = append(uniq, e)
+		}
+	}
+	sort.Slice(uniq, func(i, j int) bool {
+		return fmt.Sprintf("%s/%s/%s", uniq[i].Method, uniq[i].Head, uniq[i].Hash) < fmt.Sprintf("%s/%s/%s", uniq[j].Method, uniq[j].Head, uniq[j].Hash)
+	})
+	return execDigest(res, uniq, c)
+}
+
 func engineView(calls []sim.EngineCall) []Ev {
 	out := []Ev{}
 	for _, e := range calls {
@@ -364,6 +388,9 @@ func (d *hoDriver) height() error {
 			nmut = 3
 		} else if rare(3) {
 			nmut = 1
+		}
+		if d.opts.Mode == "determinism" && d.left == 5 && round == 0 {
+			d.forceMut, nmut = "futureTime", 1
 		}
 		for k := 0; k < nmut; k++ {
 			if err := d.mutatedProcess(h, round, proposer, now, votes, lp.Misb, proposal); err != nil {
@@ -573,6 +600,11 @@ func (d *hoDriver) mutatedProcess(h int64, round, proposer int, now time.Time, v
 		"recipientPadded", "recipientShort", "sysAdded", "sysRemoved", "sysAltered", "countByte", "reqGarbage", "gas0", "gas2", "futureTime", "engineInvalid", "engineSyncing", "tooMany", "empty",
 		"garbageRest", "timeoutWrong", "badSig", "blob"}
 	mut := muts[r.Intn(len(muts))]
+	skew := false // a payload time stamp only a few seconds ahead: the block is executed again once the clock has passed it
+	if d.forceMut != "" {
+		mut, d.forceMut = d.forceMut, ""
+		skew = mut == "futureTime"
+	}
 	txs := append([][]byte{}, honest...)
 	rest := honest[1:]
 	sigOk, restOk, answer := true, true, "VALID"
@@ -718,6 +750,9 @@ func (d *hoDriver) mutatedProcess(h int64, round, proposer int, now time.Time, v
 	case "futureTime":
 		p := clone()
 		p.Timestamp = uint64(time.Now().Unix()) + 3600
+		if skew {
+			p.Timestamp = uint64(time.Now().Unix()) + 2
+		}
 		rehash(p)
 		txs = append([][]byte{blockTx(p, proposer, sim.SignOpts{})}, rest...)
 	case "blob":
@@ -773,11 +808,25 @@ func (d *hoDriver) mutatedProcess(h int64, round, proposer int, now time.Time, v
 	byzFinal := map[string]bool{"wrongParent": true, "wrongNumber": true, "wrongBeacon": true, "wrongProposer": true, "wrongRecipient": true,
 		"recipientPadded": true, "recipientShort": true, "sysAdded": true, "sysRemoved": true, "sysAltered": true, "countByte": true,
 		"reqGarbage": true, "gas0": true, "gas2": true, "futureTime": true, "blob": true, "timeoutWrong": true}
-	if byzFinal[mut] && h > c.InitialHeight && r.Intn(2) == 0 {
+	if byzFinal[mut] && h > c.InitialHeight && (skew || r.Intn(2) == 0) {
+		prevApp := c.App.LastCommitID().Hash
+		txsDigest := sha256.New()
+		for _, t := range txs {
+			txsDigest.Write(hash32(t))
+		}
+		// determinism (C07) holds for every block, also one the node would not have voted for: same state, same block -> same result
+		execKey := hex.EncodeToString(prevApp) + "/" + hex.EncodeToString(blk.Hash(c.ChainID)[:6]) + "/" + hex.EncodeToString(txsDigest.Sum(nil)[:6])
+		ownHash := ""
+		if plOwn, err := d.a.PayloadOf(txs[0]); err == nil {
+			ownHash = hex.EncodeToString(plOwn.BlockHash[:6])
+		}
 		c.Eng.TakeLog()
 		c.Eng.ResetCounters()
 		res, ferr := c.Finalize(blk)
 		calls := c.Eng.TakeLog()
+		if ferr == nil {
+			d.emit("exec", Ev{"key": execKey, "res": execDigestSet(res, calls, c, ownHash), "replica": "M", "attempt": 0, "detail": execDetail(res)})
+		}
 		desc := d.describe(c, txs, "VALID", sigOk, restOk)
 		modulesOk := d.lg.clean && mut != "gas0" && mut != "gas2" && mut != "reqGarbage"
 		if ferr != nil {
@@ -793,6 +842,31 @@ func (d *hoDriver) mutatedProcess(h int64, round, proposer int, now time.Time, v
 		}
 		if err := d.committed("restart", c); err != nil {
 			return err
+		}
+		if ferr == nil && (skew || r.Intn(3) == 0) {
+			// the same block executed again on the same committed state (after the restart; for a skewed time stamp: once the
+			// wall clock has passed it) must give the same result
+			if skew {
+				if pl2, err := d.a.PayloadOf(txs[0]); err == nil {
+					for uint64(time.Now().Unix()) <= pl2.Timestamp {
+						time.Sleep(200 * time.Millisecond)
+					}
+				}
+			}
+			c.Eng.TakeLog()
+			c.Eng.ResetCounters()
+			res2, ferr2 := c.Finalize(blk)
+			calls2 := c.Eng.TakeLog()
+			if ferr2 == nil {
+				d.emit("exec", Ev{"key": execKey, "res": execDigestSet(res2, calls2, c, ownHash), "replica": "M", "attempt": 1, "detail": execDetail(res2)})
+			}
+			d.emit("crash", Ev{})
+			if err := c.Restart(); err != nil {
+				return err
+			}
+			if err := d.committed("restart", c); err != nil {
+				return err
+			}
 		}
 	}
 	return nil
